@@ -121,14 +121,20 @@ func (t *Term) IsConst() bool { return t.Op == OConst }
 
 // TermTable hash-conses terms.  One per worker (not shared between
 // goroutines except under its own lock).
+type constKey struct {
+	s Sort
+	v uint64
+}
+
 type TermTable struct {
-	mu    sync.Mutex
-	byKey map[string]*Term
-	all   []*Term
+	mu     sync.Mutex
+	byKey  map[string]*Term
+	consts map[constKey]*Term
+	all    []*Term
 }
 
 func NewTermTable() *TermTable {
-	return &TermTable{byKey: map[string]*Term{}}
+	return &TermTable{byKey: map[string]*Term{}, consts: map[constKey]*Term{}}
 }
 
 func (tt *TermTable) intern(t *Term) *Term {
@@ -185,7 +191,13 @@ func (tt *TermTable) Const(s Sort, v uint64) *Term {
 	if s.K == KBool {
 		v &= 1
 	}
-	return tt.intern(&Term{Op: OConst, S: s, Val: v})
+	k := constKey{s, v}
+	if t, ok := tt.consts[k]; ok {
+		return t
+	}
+	t := tt.intern(&Term{Op: OConst, S: s, Val: v})
+	tt.consts[k] = t
+	return t
 }
 
 func (tt *TermTable) Bool(b bool) *Term {
@@ -303,6 +315,18 @@ func (tt *TermTable) BinBV(op Op, a, b *Term) *Term {
 	case OSub, OShl, OLShr, OAShr:
 		if b.IsConst() && b.Val == 0 {
 			return a
+		}
+		if op == OSub {
+			if a == b {
+				return tt.Const(a.S, 0)
+			}
+			// (x + k) - x = k
+			if a.Op == OAdd && a.Args[0] == b {
+				return a.Args[1]
+			}
+			if a.Op == OAdd && a.Args[1] == b {
+				return a.Args[0]
+			}
 		}
 	case OAnd:
 		if a.IsConst() && a.Val == 0 {
